@@ -67,6 +67,16 @@ def gen_ctrl_cfgmin(r, tier):
     return ops
 
 
+def gen_analysis(r, tier):
+    """the measurement itself: the real start-up analysis (`Run` / `fan init`) on devices that follow the PWM register
+    (RPM = 10 x PWM from a spin threshold on), with quantisers and configured maps the device does not read back (those
+    points are skipped), each followed by `su.data`: the stored curve is what the device did AT each stored PWM value, and
+    the limits are the curve's (seed C13k: the samples were collected in a list and keyed by position afterwards, so a
+    skipped point shifted every later one)"""
+    from .. import streams_startup as ss
+    return ss.gen_startup_data(r, 60 if tier == "quick" else 1500)
+
+
 def goint(f):
     if f != f or f in (float("inf"), float("-inf")) or abs(f) >= 2.0**63:
         return -2**63
@@ -101,17 +111,43 @@ def parse_float_map(tok):
 class C13(Prop):
     id = "C13"
     lean_modules = ["Fan2go.Props.C13"]
-    fact_modules = ["Fan2go.Props.Trans", "Fan2go.Props.Trans2Keys", "Fan2go.Props.Trans3Fan", "Fan2go.Props.Trans3FileFan"]
-    rule = ("fans: real HwMonFan/FileFan/CmdFan values through fans.NewFan; data maps (sparse, non-monotonic, plateaus, all-zero, "
+    fact_modules = ["Fan2go.Props.Trans", "Fan2go.Props.Trans2Keys", "Fan2go.Props.Trans3Fan", "Fan2go.Props.Trans3FileFan", "Fan2go.Props.Trans3RunInit"]
+    rule = ("analysis: the real start-up analysis on register-following devices (quantisers, configured maps the device does not read back), "
+            "stored curve and limits against the data-carrying model; fans: real HwMonFan/FileFan/CmdFan values through fans.NewFan; data maps (sparse, non-monotonic, plateaus, all-zero, "
             "single point, fractional / negative / non-finite RPM) x the 8 configured/unconfigured combinations x neverStop x "
             "attachment and setter sequences; fanx: data maps over 6 keys x RPM in {0,0.5,1,300,300.9,1200} (exhaustive in the "
             "thorough tier). non-trivial = distinct (kind, configured mask, neverStop, data shape, attach count)")
     assumptions = ["RPM values are compared in whole RPM (Go int(rpm) truncation), as the property states"]
     streams = [Stream("fans", gen_fans, parallel=8), Stream("fanx", gen_fans_exhaustive, parallel=8),
-               Stream("startlim", gen_startlim, parallel=8), Stream("ctrl-cfgmin", gen_ctrl_cfgmin, parallel=8)]
+               Stream("startlim", gen_startlim, parallel=8), Stream("ctrl-cfgmin", gen_ctrl_cfgmin, parallel=8),
+               Stream("analysis", gen_analysis, parallel=8)]
 
     def oracle(self, name, ops, go):
         out = []
+        if name == "analysis":
+            # reference: the data-carrying model of the analysis (Model/Analysis.lean) on the same operations
+            lean = getattr(self, "lean_out", None) or go
+            lean_cases = [lc for _, lc in cases(ops, lean)]
+            for ci, (cops, cgo) in enumerate(cases(ops, go)):
+                clean = lean_cases[ci] if ci < len(lean_cases) else cgo
+                for i, (op, g) in enumerate(zip(cops, cgo)):
+                    if not op.startswith("su.data") or i >= len(clean):
+                        continue
+                    a, b = kv(g), kv(clean[i])
+                    if a.get("rpm") != b.get("rpm") and a.get("rpm") not in (None, "nil"):
+                        out.append(viol(f"the stored RPM curve is not what the device did at those PWM values: stored {a.get('rpm')}, the device "
+                                        f"(RPM = 10 x PWM register from its spin threshold on) gave {b.get('rpm')}", cops, cgo, upto=i))
+                        break
+                    data = parse_float_map(a.get("rpm"))
+                    if data and "/" in a.get("lim", "-"):
+                        mn, st, mx = (int(x) for x in a["lim"].split("/"))
+                        es, em = expected_limits(data)
+                        fan_line = next((o for o in reversed(cops[:i]) if o.startswith("su.fan") and f"fan={kv(op).get('fan')}" in o), "")
+                        fa = kv(fan_line)
+                        if fa.get("kind") == "hwmon" and fa.get("minmax", "0") == "0" and "startpwm" not in fa and (st, mx) != (es, em):
+                            out.append(viol(f"limits {st}/{mx} derived from the stored curve, whose lowest spinning / fastest points are {es}/{em}", cops, cgo, upto=i))
+                            break
+            return out
         for cops, cgo in cases(ops, go):
             if name == "ctrl-cfgmin":
                 if len(cops) < 2 or not cops[1].startswith("w.new"):
@@ -215,6 +251,9 @@ class C13(Prop):
                 continue
             if name == "ctrl-cfgmin":
                 s.add(("cfgmin", kv(cops[1]).get("loop"), min(len(cops) // 10, 5)))
+                continue
+            if name == "analysis":
+                s.add(("analysis", tuple(o.split()[0] for o in cops[1:8]), frozenset(kv(o).get("mapstyle") for o in cops if o.startswith("su.fan"))))
                 continue
             if name == "startlim":
                 d = next((parse_float_map(kv(o)["data"]) for o in cops if o.startswith("su.putrpm")), None) or {}
